@@ -259,6 +259,8 @@ func (se *session) do(toks []string, lineNo int) (res string) {
 		return sb.String()
 	case "NDUMP":
 		return "NDUMP " + se.nodes[toks[1]].Dump()
+	case "NRAW":
+		return "NRAW " + se.nodes[toks[1]].RawDump()
 	}
 	panic("bad command " + strings.Join(toks, " "))
 }
